@@ -7,6 +7,7 @@ import (
 	"os"
 	"runtime/debug"
 	"sort"
+	"strings"
 	"sync/atomic"
 
 	"github.com/couchbase/moss"
@@ -212,7 +213,27 @@ func (g *gen) ops(max int) []bop {
 	return out
 }
 
+// existenceOnly: a batch without a single key operation, which only creates (empty) or deletes
+// a child collection, one or two levels down.
+func (g *gen) existenceOnly() *tbatch {
+	leaf := func(name string, del bool) kid {
+		if del {
+			return kid{name: name, del: true}
+		}
+		return kid{name: name, b: &tbatch{}}
+	}
+	c := childNames[g.r.intn(len(childNames))]
+	del := g.r.chance(3, 5)
+	if g.r.chance(1, 2) {
+		return &tbatch{kids: []kid{leaf(c, del)}}
+	}
+	return &tbatch{kids: []kid{{name: c, b: &tbatch{kids: []kid{leaf("d1", del)}}}}}
+}
+
 func (g *gen) batch(depth int) *tbatch {
+	if depth == 0 && g.o.childPct > 0 && g.r.chance(1, 10) {
+		return g.existenceOnly()
+	}
 	b := &tbatch{ops: g.ops(5), alloc: g.r.intn(100) < g.o.allocPct}
 	if depth < 2 && g.r.intn(100) < g.o.childPct {
 		names := childNames
@@ -493,6 +514,37 @@ func runCollCase(w *bufio.Writer, id int, seed uint64, cfg Config, nLabels int, 
 		switch r.pick([]int{wBatch, wMerger, wPers, wNotify, wSnap, wSnapClose, wReopen, wFail}) {
 		case 0:
 			b := g.nonEmptyBatch()
+			if o.childPct > 0 && isEmptyStack(d.Top) && isEmptyStack(d.Mid) && isEmptyStack(d.Base) && r.chance(1, 3) {
+				// everything is drained: a round that carries nothing but the creation or the
+				// deletion of a child collection (preferably one that exists, one or two levels down)
+				b = g.existenceOnly()
+				if r.chance(1, 3) {
+					// ... or nothing but key operations two levels down
+					deep := &tbatch{ops: g.ops(3)}
+					if len(deep.ops) == 0 {
+						deep.ops = []bop{{'s', []byte("k1"), g.value()}}
+					}
+					b = &tbatch{kids: []kid{{name: childNames[r.intn(len(childNames))], b: &tbatch{kids: []kid{{name: "d1", b: deep}}}}}}
+					goto haveBatch
+				}
+				var paths [][]string
+				for n, c := range d.Coll.Children {
+					paths = append(paths, []string{n})
+					for n2 := range c.Children {
+						paths = append(paths, []string{n, n2})
+					}
+				}
+				sort.Slice(paths, func(i, j int) bool { return strings.Join(paths[i], "/") < strings.Join(paths[j], "/") })
+				if len(paths) > 0 && r.chance(3, 4) {
+					p := paths[r.intn(len(paths))]
+					if len(p) == 1 {
+						b = &tbatch{kids: []kid{{name: p[0], del: true}}}
+					} else {
+						b = &tbatch{kids: []kid{{name: p[0], b: &tbatch{kids: []kid{{name: p[1], del: true}}}}}}
+					}
+				}
+			}
+		haveBatch:
 			if o.bigFirst && cr.hist["batch"] == 0 {
 				big := bytes.Repeat([]byte("B"), 1500+r.intn(1000))
 				replaced := false
